@@ -1,6 +1,7 @@
 #![no_std]
 #![cfg_attr(miri, feature(alloc_layout_extra) )]
 #![cfg_attr(docsrs, feature(doc_cfg))]
+#![cfg_attr(kani, feature(stmt_expr_attributes, proc_macro_hygiene))]
 
 //! Type erased vector [`AnyVec`]. Allow to store elements of the same type.
 //! Have same performance and *operations* as `std::vec::Vec`.
@@ -154,6 +155,11 @@ mod any_vec_ptr;
 mod any_vec_raw;
 mod any_vec_typed;
 mod iter;
+
+// Verification harness module. Supplied by the /verif runner (copied into
+// src/kani_verif of a scratch copy); compiled only under `cargo kani`.
+#[cfg(kani)]
+pub(crate) mod kani_verif;
 
 use core::any::TypeId;
 pub use crate::any_vec::{AnyVec, AnyVecMut, AnyVecRef, RawParts, SatisfyTraits, traits};
